@@ -107,12 +107,12 @@ Proof.
     inversion Hc; subst v. unfold piece. rewrite <- app_assoc. split; auto.
 Qed.
 
-Lemma piece_groups : forall t one16 s o r v, t < 65536 -> opt_ext t s = Some (o, r) -> bytes_ok s ->
-  canon_groups one16 o = Some v ->
+Lemma piece_groups : forall t s o r v, t < 65536 -> opt_ext t s = Some (o, r) -> bytes_ok s ->
+  canon_groups o = Some v ->
   s = piece (nonnil v) t (vec16 (u16s v)) ++ r /\ bytes_ok r /\
-  Forall (fun x => x < 65536) v /\ 2 * len v < 65534 /\ (one16 = true -> (length v <= 1)%nat).
+  Forall (fun x => x < 65536) v /\ 2 * len v < 65534.
 Proof.
-  intros t one16 s o r v T X Hok Hc.
+  intros t s o r v T X Hok Hc.
   destruct (opt_ext_inv _ _ _ _ X Hok T) as [[-> ->]|(d & -> & -> & Hd & Hdo & Hro)].
   - inversion Hc; subst v. repeat split; auto using bytes_ok_nil; cbn; try lia.
   - unfold canon_groups, canon_u16s in Hc. rewrite cut2_vec16 in Hc.
@@ -121,11 +121,10 @@ Proof.
     destruct (rd_u16s cs) as [l|] eqn:E2; try discriminate.
     apply (rd_u16s_inv (length cs)) in E2 as (<- & Hall & Hlen); auto.
     rewrite app_nil_r in *.
-    assert (Hv : l = v /\ l <> [] /\ (one16 = true -> (length l <= 1)%nat)).
-    { destruct l as [|x [|y l']]; try discriminate.
-      - inversion Hc; subst. repeat split; auto; try discriminate; cbn; try lia.
-      - destruct one16; try discriminate. inversion Hc; subst. repeat split; auto; try discriminate. }
-    destruct Hv as (-> & Hne & H1).
+    assert (Hv : l = v /\ l <> []).
+    { destruct l as [|x l']; try discriminate.
+      inversion Hc; subst. split; auto; discriminate. }
+    destruct Hv as (-> & Hne).
     replace (nonnil v) with true by (destruct v; [congruence | reflexivity]).
     unfold piece. rewrite <- app_assoc. repeat split; auto.
     rewrite len_vec16, len_u16s in Hd. lia.
@@ -180,11 +179,10 @@ Proof.
 Qed.
 
 (* the canonical parser accepts only what marshal produces *)
-Lemma canon_ch_sound : forall cookie one16 body m, canon_ch_body cookie one16 body = Some m -> bytes_ok body ->
-  ch_body_enc cookie m = body /\ wf_ch cookie m /\
-  (one16 = true -> (length (ch_curves m) <= 1)%nat /\ (length (ch_sigalgs m) <= 1)%nat).
+Lemma canon_ch_sound : forall cookie body m, canon_ch_body cookie body = Some m -> bytes_ok body ->
+  ch_body_enc cookie m = body /\ wf_ch cookie m.
 Proof.
-  unfold canon_ch_body; intros cookie one16 body m H Hok.
+  unfold canon_ch_body; intros cookie body m H Hok.
   destruct (rd_u16 body) as [[vers s0]|] eqn:E0; try discriminate.
   apply rd_u16_inv in E0 as (-> & Hv & Hok0); auto.
   destruct (take 32 s0) as [[random s1]|] eqn:E1; try discriminate.
@@ -210,10 +208,9 @@ Proof.
   apply rd_vec8_inv in E6 as (-> & Hcol & Hcoo & Hok5); auto.
   rewrite len_u16s in Hcsl.
   destruct (empty s5) eqn:Ee.
-  { apply empty_true in Ee as ->. inversion H; subst m. split; [|split].
+  { apply empty_true in Ee as ->. inversion H; subst m. split.
     - unfold ch_body_enc. cbn. reflexivity.
-    - unfold wf_ch, wf_blob; cbn -[N.mul]. repeat split; auto using bytes_ok_nil; try lia.
-    - intros _. cbn. lia. }
+    - unfold wf_ch, wf_blob; cbn -[N.mul]. repeat split; auto using bytes_ok_nil; try lia. }
   rewrite cut2_vec16 in H.
   destruct (rd_vec16 s5) as [[blk s6]|] eqn:E7; try discriminate.
   apply rd_vec16_inv in E7 as (-> & Hbl & Hbo & _); auto.
@@ -231,8 +228,8 @@ Proof.
   destruct (canon_sni o0) as [sni|] eqn:C0; try discriminate.
   destruct (canon_tca o3) as [tas|] eqn:C3; try discriminate.
   destruct (canon_status o5) as [ocsp|] eqn:C5; try discriminate.
-  destruct (canon_groups one16 o10) as [curves|] eqn:C10; try discriminate.
-  destruct (canon_groups one16 o13) as [sigalgs|] eqn:C13; try discriminate.
+  destruct (canon_groups o10) as [curves|] eqn:C10; try discriminate.
+  destruct (canon_groups o13) as [sigalgs|] eqn:C13; try discriminate.
   destruct (canon_alpns o16) as [alpn|] eqn:C16; try discriminate.
   destruct (canon_cid o66) as [cid|] eqn:C66; try discriminate.
   inversion H; subst m. clear H.
@@ -240,20 +237,19 @@ Proof.
   destruct (piece_tca _ _ _ _ X3 Hb1 C3) as (P3 & Hb2 & Htas & Ltas).
   destruct (piece_status _ _ _ _ X5 Hb2 C5) as (P5 & Hb3).
   assert (T10 : extSupportedGroups < 65536) by (unfold extSupportedGroups; lia).
-  destruct (piece_groups _ _ _ _ _ _ T10 X10 Hb3 C10) as (P10 & Hb4 & Hcu & Lcu & O10).
+  destruct (piece_groups _ _ _ _ _ T10 X10 Hb3 C10) as (P10 & Hb4 & Hcu & Lcu).
   assert (T13 : extSignatureAlgorithms < 65536) by (unfold extSignatureAlgorithms; lia).
-  destruct (piece_groups _ _ _ _ _ _ T13 X13 Hb4 C13) as (P13 & Hb5 & Hsa & Lsa & O13).
+  destruct (piece_groups _ _ _ _ _ T13 X13 Hb4 C13) as (P13 & Hb5 & Hsa & Lsa).
   destruct (piece_alpn _ _ _ _ X16 Hb5 C16) as (P16 & Hb6 & Hal & Lal).
   destruct (piece_cid _ _ _ _ X66 Hb6 C66) as (P66 & _ & Hcio & Hcil).
   assert (Eexts : ch_exts_enc (mkCH vers random sid ck suites comp sni tas ocsp curves sigalgs alpn cid) = blk).
   { rewrite ch_exts_enc_pieces. cbn [ch_sni ch_tas ch_ocsp ch_curves ch_sigalgs ch_alpn ch_cid].
     rewrite P0, P3, P5, P10, P13, P16, P66, app_nil_r. reflexivity. }
-  split; [|split].
+  split.
   - unfold ch_body_enc. cbn [ch_vers ch_random ch_sid ch_cookie ch_suites ch_comp]. rewrite Eexts, E8b.
     rewrite app_nil_r. reflexivity.
   - unfold wf_ch, wf_blob. cbn [ch_vers ch_random ch_sid ch_cookie ch_suites ch_comp ch_sni ch_tas ch_ocsp ch_curves ch_sigalgs ch_alpn ch_cid].
     rewrite Eexts. repeat split; auto; lia.
-  - intros Ho. cbn [ch_curves ch_sigalgs]. auto.
 Qed.
 
 (* ================= strictness of what the ClientHello decoder accepts ================= *)
@@ -446,13 +442,6 @@ Proof.
     Htas & Hcu & Hsa & Hal & [Hcio Hcil] & Ltas & Lcu & Lsa & Lal & Lex).
   unfold ch_body_enc. destruct cookie, (empty (ch_exts_enc m)); lens.
 Qed.
-Lemma ch_norm_single : forall m, (length (ch_curves m) <= 1)%nat -> (length (ch_sigalgs m) <= 1)%nat ->
-  ch_norm false m = m.
-Proof.
-  intros [v r s ck su c sn tas oc cu sa al ci] H1 H2. cbn [ch_curves ch_sigalgs] in *. unfold ch_norm.
-  destruct cu as [|x [|y cu]]; cbn [length] in H1; try lia;
-  destruct sa as [|x' [|y' sa]]; cbn [length] in H2; try lia; reflexivity.
-Qed.
 
 (* ---------- TLCP clientHello ---------- *)
 Lemma T_ch_decode_encode : forall m, wf_ch false m -> T_ch_dec (T_ch_enc m) = Ok m.
@@ -470,8 +459,8 @@ Proof.
   apply outer_ok_T_inv in Ho as (x & body & -> & Hl & Hx & Hb); auto.
   apply type_ok_hdr in Ht as ->.
   unfold canonical in Hc'. apply andb_prop in Hc' as [_ Hc']. rewrite body_of_T in Hc'.
-  destruct (canon_ch_body false false body) as [m'|] eqn:Ec; try discriminate.
-  apply canon_ch_sound in Ec as (Eenc & Hwf & _); auto.
+  destruct (canon_ch_body false body) as [m'|] eqn:Ec; try discriminate.
+  apply canon_ch_sound in Ec as (Eenc & Hwf); auto.
   rewrite T_ch_hdr in H. apply of_opt_ok in H. rewrite <- Eenc in H.
   rewrite ch_body_decode_encode in H by auto. inversion H; subst m'.
   unfold T_ch_enc. rewrite Eenc. reflexivity.
@@ -489,9 +478,8 @@ Lemma T_ch_total : forall bs s, T_ch_dec bs <> Panic s.
 Proof. intros; apply of_opt_total. Qed.
 
 (* ---------- DTLCP clientHello ---------- *)
-(* decoding the encoding keeps only the last supported group / signature algorithm (ch_norm false) *)
 Lemma D_ch_decode_encode : forall h m, wf_dh h -> wf_ch true m ->
-  D_ch_dec (D_ch_enc (h, m)) = Ok (mkDH (dh_seq h) 0 (len (ch_body_enc true m)), ch_norm false m).
+  D_ch_dec (D_ch_enc (h, m)) = Ok (mkDH (dh_seq h) 0 (len (ch_body_enc true m)), m).
 Proof.
   intros h m (Hs & Ho & Hf) Hwf. unfold D_ch_dec, D_ch_enc. cbn [fst snd].
   rewrite d_msg_wf, d_unhdr_whole by (eauto using len_ch_body). rewrite N.eqb_refl. cbn [negb].
@@ -507,10 +495,10 @@ Proof.
   destruct (x =? tClientHello) eqn:Ex; try discriminate. apply N.eqb_eq in Ex. subst x. cbn [negb] in H.
   destruct (ch_body_dec true false body) as [m0|] eqn:Ed; try discriminate. inversion H; subst h' m0.
   unfold canonical in Hc'. apply andb_prop in Hc' as [_ Hc']. rewrite E, body_of_D in Hc'.
-  destruct (canon_ch_body true true body) as [m'|] eqn:Ec; try discriminate.
-  apply canon_ch_sound in Ec as (Eenc & Hwf & H16); auto. destruct (H16 eq_refl) as [H16a H16b].
+  destruct (canon_ch_body true body) as [m'|] eqn:Ec; try discriminate.
+  apply canon_ch_sound in Ec as (Eenc & Hwf); auto.
   rewrite <- Eenc in Ed. rewrite ch_body_decode_encode in Ed by auto.
-  rewrite ch_norm_single in Ed by auto. inversion Ed; subst m'.
+  inversion Ed; subst m'.
   rewrite E. unfold D_ch_enc. cbn [fst snd]. rewrite Eenc. apply d_msg_whole; auto.
 Qed.
 Lemma D_ch_strict : forall bs m, D_ch_dec bs = Ok m -> bytes_ok bs -> outer_ok SD bs = true ->
